@@ -191,7 +191,10 @@ def install(w):
         "peek": dict(ensures=["result == (self._lexer.token.kind == kind)"]),
         "expect_token": dict(ensures=["result.kind == kind"]),
         "parse_name": dict(),
+        # later stages index DirectiveLocation[name.value] without a guard (KnownDirectivesRule)
+        "parse_directive_location": dict(ensures=["enum_member_name('DirectiveLocation', result.value)"]),
     }
+    w.alias("DirectiveLocation", "graphql.language.directive_locations.DirectiveLocation")
     for name, fn in Parser.__dict__.items():
         if not inspect.isfunction(fn) or name in ("__init__", "advance_lexer"):
             continue
